@@ -15,7 +15,7 @@ import collections
 
 from sa.cfg import cfg_of
 from sa.fold import Evaluator, Obj, Raised, Unfoldable
-from sa.guards import decide_with, find_calls
+from sa.guards import decide_with, find_calls, kind_name
 from sa.loader import AnalysisError, call_name, calls_in, kwarg, walk_local
 
 PROPERTY = "C17"
@@ -87,8 +87,26 @@ def r1(repo, res):
     res.floor("C17.R1", "dump tuple components", len(w), 8)
     res.ob("C17.R1", wf, wc.args[0], len(w) == len(r), expected=f"writer and reader tuples have the same length",
            found=f"writer {len(w)}, reader {len(r)}", key="length")
+    # roles instead of local names: a table handed to the writer as its k-th table parameter must come back as the
+    # k-th element the reader returns; a local of the reader that is stored into self.X afterwards has role X
+    wparams = [a_.arg for a_ in wf.args.args[2:]]
+    rets = [n for n in walk_local(rf) if isinstance(n, ast.Return) and isinstance(n.value, ast.Tuple)]
+    ret_names = [ast.unparse(e) for e in rets[-1].value.elts] if rets else []
+
+    def wrole(x):
+        return f"table{wparams.index(x)}" if x in wparams else x
+
+    def rrole(x):
+        if x in ret_names:
+            return f"table{ret_names.index(x)}"
+        for n in walk_local(rf):
+            if isinstance(n, ast.Assign) and isinstance(n.targets[0], ast.Attribute) and isinstance(n.targets[0].value, ast.Name) \
+                    and n.targets[0].value.id == "self" and any(isinstance(y, ast.Name) and y.id == x for y in ast.walk(n.value)):
+                return n.targets[0].attr
+        return x
+
     for i, (a, b) in enumerate(zip(w, r)):
-        ra, rb = root(a), root(b)
+        ra, rb = wrole(root(a)), rrole(root(b))
         res.ob("C17.R1", wf, a, ra == rb,
                expected=f"position {i}: reader binds the component the writer stored",
                found=f"writer stores `{ra}` ({ast.unparse(a)[:50]}), reader binds `{rb}`",
@@ -108,9 +126,9 @@ def r1(repo, res):
                found=f"writer params {params}, dump call args {args}, _make_coverage args {margs}", key="table-argument-order")
     rets = [n for n in walk_local(rf) if isinstance(n, ast.Return) and isinstance(n.value, ast.Tuple)]
     if rets:
-        got = [ast.unparse(e) for e in rets[-1].value.elts]
-        want = [root(e) for e in w[3:5]]
-        res.ob("C17.R1", rf, rets[-1], got == want, expected=f"reader returns the restored tables in loader order {want}",
+        got = [rrole(ast.unparse(e)) for e in rets[-1].value.elts]
+        want = [wrole(root(e)) for e in w[3:5]]
+        res.ob("C17.R1", rf, rets[-1], got == want, expected=f"reader returns the restored tables in the order the writer received them {want}",
                found=str(got), key="reader-return-order")
 
 
@@ -299,7 +317,7 @@ def r4(repo, res):
     cg = cfg_of(g)
     pk = g.args.kwarg.arg if g.args.kwarg else "params"
     reapply = [x for x in find_calls(g, "update") if x.args and ast.unparse(x.args[0]) == pk]
-    removed = cg.prune(decide_with({"kind": "dump", "cn_solution": None}))
+    removed = cg.prune(decide_with({kind_name(g): "dump", "cn_solution": None}))
     stage = find_calls(g, "estimate_cn")
     ok = bool(reapply) and bool(stage) and any(cg.is_reachable(cg.node_of(r), removed) and
                                                cg.dominates(cg.node_of(r), cg.node_of(stage[0]), removed) for r in reapply)
@@ -319,7 +337,7 @@ def r5(repo, res):
     mc = [n for n in walk_local(g) if isinstance(n, ast.Assign) and ast.unparse(n.targets[0]).replace('"', "'") == "params['min_coverage']"]
     up = [x for x in find_calls(g, "update") if x.args and ast.unparse(x.args[0]) == (g.args.kwarg.arg if g.args.kwarg else "params")]
     for prof in ("exome", "wxs", "wes"):
-        removed = cg.prune(decide_with({"kind": "dump", "profile_name": prof, "cn_solution": None}))
+        removed = cg.prune(decide_with({kind_name(g): "dump", "profile_name": prof, "cn_solution": None}))
         ok = bool(st) and bool(stage) and cg.is_reachable(cg.node_of(st[0]), removed) and cg.dominates(cg.node_of(st[0]), cg.node_of(stage[0]), removed)
         ok2 = bool(mc) and bool(up) and cg.is_reachable(cg.node_of(mc[0]), removed) and any(
             cg.dominates(cg.node_of(mc[0]), cg.node_of(u), removed) for u in up if cg.is_reachable(cg.node_of(u), removed))
